@@ -16,6 +16,10 @@ TFP by parameter NAME (so a positional mix-up in a wrapper is visible), summed o
  * assess / importance / update: scores and weights == oracle sums / differences, values carried over;
  * keyword and positional invocations give the same trace for the same key (bit-identical value and
    score); a `Const`-wrapped sample_shape is equivalent to a plain tuple.
+ * on 7 rows of different kinds: importance with the full-value constraint wrapped as Mask(v, flag),
+   flag in {True, False, array(True), array(False)}: true = identical to the unmasked constraint;
+   false = a fresh sample in the support, weight 0, trace score == oracle(sampled value); a following
+   update must weigh with that score.
 The randomness seam is not used (real TFP samplers).
 """
 
@@ -45,9 +49,9 @@ ASSUMPTIONS = [
     "the oracle is TFP itself (the property's own oracle): TFP's densities are not re-derived",
 ]
 BOUNDS = {
-    "quick": dict(wrappers=47, combos_per_row="(A,(),pos) all operations; (A,(),kw) shape/dtype + staged-computation equivalence "
+    "quick": dict(wrappers=47, masked_constraint_rows=7, combos_per_row="(A,(),pos) all operations; (A,(),kw) shape/dtype + staged-computation equivalence "
                   "with the positional and closure forms; (C,(2,),kw) all operations; beta_quotient: (A,(),pos) simulate only", keys=4),
-    "thorough": dict(wrappers=47, combos_per_row="{A,B,C} x {(),(2,)} x {pos,kw} all operations; beta_quotient: the quick combinations "
+    "thorough": dict(wrappers=47, masked_constraint_rows=7, combos_per_row="{A,B,C} x {(),(2,)} x {pos,kw} all operations; beta_quotient: the quick combinations "
                      "of the other rows", keys=4),
 }
 JOBS = {"quick": 8, "thorough": 16}
@@ -251,6 +255,10 @@ def _combos(tier, row):
     if row["wrapper"] in HEAVY:
         return [("A", (), "pos", "full"), ("A", (), "kw", "staged"), ("C", (2,), "kw", "full")]
     return [(pt, ss, form, "full") for pt in "ABC" for ss in ((), (2,)) for form in ("pos", "kw")]
+
+
+# rows on which masked constraints are exercised (the code path is shared by all distributions)
+MASKED_ROWS = {"normal", "flip", "categorical[logits]", "bernoulli[probs]", "log_normal", "mv_normal_diag", "uniform"}
 
 
 def _other(pt):
@@ -476,6 +484,45 @@ def _run(row, tier, seed):
                     if not ok:
                         fail(op if op != "closure_assess" else "kw_vs_pos", field, expected=np.asarray(e), actual=a,
                              value=np.asarray(v1), previous_value=np.asarray(v0))
+
+            # (f') importance with the full-value constraint wrapped as Mask(v, flag) - what every non-addressed
+            # index of a vmap sees -, followed by an update of that trace (which must weigh with the right old score)
+            if row["id"] in MASKED_ROWS:
+                for fname, flag in (("True", True), ("False", False), ("array(True)", jnp.array(True)), ("array(False)", jnp.array(False))):
+                    is_arr = fname.startswith("array")
+                    mop = f"importance:mask={fname}"
+                    ck = (ss, form, pt == "C", "mask", "array" if is_arr else fname)
+                    jm = ops_cache.get(ck)
+                    if jm is None:
+                        def mops(k1, k2, prm, va, vb, flg, _form=form, _ss=ss, _py=(None if is_arr else flag)):
+                            a1 = mk_args(_form, prm, _ss)
+                            tr, w = gf.importance(k1, C.v(vb).mask(flg if _py is None else _py), a1)
+                            ntr, w2, _rd, _bwd = gf.update(k2, tr, C.v(va), Diff.no_change(a1))
+                            return dict(value=cval(tr), score=tr.get_score(), weight=w,
+                                        upd_value=cval(ntr), upd_score=ntr.get_score(), upd_weight=w2)
+
+                        jm = ops_cache[ck] = jax.jit(mops)
+                    ctx.ev((row["id"], pt, ss, form, mop), nontrivial=True)
+                    ctx.note("masked_constraint_checks")
+                    res = guarded(mop, lambda: jm(keys[1], keys[2], params, v0, v1, jnp.array(bool(flag))))
+                    if res is None:
+                        continue
+                    got = np.asarray(res["value"])
+                    if bool(flag):  # identical to the unmasked constraint
+                        o_val, e_w = o1, o1
+                        if not np.array_equal(got, np.asarray(v1)):
+                            fail(mop, "value", expected=np.asarray(v1), actual=got)
+                    else:  # unconstrained: a fresh sample, weight 0, score = its log-density
+                        o_val, e_w = oracle(params, res["value"]), 0.0
+                        if got.shape != exp_shape or got.dtype != exp_dtype:
+                            fail(mop, "dtype", expected=[list(exp_shape), str(exp_dtype)], actual=[list(got.shape), str(got.dtype)])
+                        elif not in_support(row["support"], got, par_np):
+                            fail(mop, "support", value=got)
+                    for field, e in (("score", o_val), ("weight", e_w), ("upd_score", o0), ("upd_weight", o0 - o_val)):
+                        if not close(res[field], e):
+                            fail(mop, field, expected=e, actual=np.asarray(res[field]), value=got, flag=fname)
+                    if not np.array_equal(np.asarray(res["upd_value"]), np.asarray(v0)):
+                        fail(mop, "upd_value", expected=np.asarray(v0), actual=np.asarray(res["upd_value"]))
 
             # (g) keyword == positional on the same keys (when both forms are run in full)
             drawn[(pt, ss, form)] = [(np.asarray(a), np.asarray(b)) for a, b in zip(samples, scores)]
